@@ -972,6 +972,9 @@ func (fp *FuncProof) record(it goalItem, res Result, q *Query, model []string, p
 		}
 		return
 	}
+	if res.Status != "sat" && q != nil {
+		e.undecidedQs = append(e.undecidedQs, q)
+	}
 	if e.Status == "discharged" || (e.Status == "undecided" && res.Status == "sat") {
 		if res.Status == "sat" {
 			e.Status = "failed"
@@ -1200,6 +1203,7 @@ func (fp *FuncProof) Run() {
 	if hinted {
 		// the hinted invariants are verified like any others; if anything fails (stale hints or a
 		// changed function) the hint is discarded and inference is redone from scratch
+		fp.retryUndecided()
 		if tot, dis := fp.ledger.Counts(); tot != dis {
 			fp.resetInvariants()
 			fp.ledger = NewLedger()
@@ -1222,6 +1226,7 @@ func (fp *FuncProof) Run() {
 	if fp.opts.Rel {
 		fp.RelCheck()
 	}
+	fp.retryUndecided()
 	fp.stats.Secs = time.Since(t0).Seconds()
 	fp.stats.Hints = fp.usedHints
 	if os.Getenv("RJV_WRITE_HINTS") != "" && fp.opts.OnlyKinds == nil {
@@ -1229,6 +1234,60 @@ func (fp *FuncProof) Run() {
 			fp.writeHints()
 		}
 	}
+}
+
+// retryUndecided: an obligation on which every solver gave up within the normal budget (typical
+// under machine load) is not a violation yet: its queries are run again, a few at a time, with a
+// budget six times as long. Only `unsat` on every instance discharges it; `sat` makes it failed.
+func (fp *FuncProof) retryUndecided() {
+	var todo []*LedgerEntry
+	for _, e := range fp.ledger.Sorted() {
+		if e.Status == "undecided" && len(e.undecidedQs) > 0 && len(e.undecidedQs) <= 40 {
+			todo = append(todo, e)
+		}
+	}
+	if len(todo) == 0 || len(todo) > 25 {
+		return
+	}
+	sem := make(chan struct{}, 4)
+	var wg sync.WaitGroup
+	for _, e := range todo {
+		e := e
+		wg.Add(1)
+		go func() {
+			defer wg.Done()
+			allUnsat, anySat := true, false
+			var satRes Result
+			for _, q := range e.undecidedQs {
+				sem <- struct{}{}
+				body, vals := q.Build(0)
+				r := fp.eng.pool.Decide(body, vals, fp.opts.SlowMs, fp.opts.SlowMs*6)
+				<-sem
+				if r.Status == "sat" {
+					anySat, satRes = true, r
+					e.failQ, e.failRes = q, r
+					break
+				}
+				if r.Status != "unsat" {
+					allUnsat = false
+				}
+			}
+			fp.mu.Lock()
+			defer fp.mu.Unlock()
+			switch {
+			case anySat:
+				e.Status = "failed"
+				e.Detail = "solver answered sat on retry"
+				e.Solver = satRes.Solver
+			case allUnsat:
+				e.Status = "discharged"
+				e.Detail = ""
+				e.Solver = "retry-long-timeout"
+				e.failQ = nil
+			}
+		}()
+	}
+	wg.Wait()
 }
 
 // nonInductive: some invariant-preservation obligation failed in the last check pass.
